@@ -46,3 +46,7 @@ Proof.
 Qed.
 
 Definition bvec_eqb (x y : vec B2) : bool := vec_eqb (S := B2) x y.
+
+(* the same hierarchy with the smoother on the coarsest level (direct_coarse = false) *)
+Definition exBH' := amg_init 2 false 10 (coarse_op_of (Some exBhalf)) exBTs exBM.
+Definition exBJac : @relax5 B2 := R5Std (S := B2) (RJacobi (S := B2) (blk_embed QcS 2 (qc 3 4))).
